@@ -101,6 +101,11 @@ CHECKS = {
          "Scenarios prepared single-threaded over simnet (role; driver polled before or never; 1..3 request handles each about to raise a different connection error; the last SendRequest drop; a transport ApplicationClose; an error the driver detects itself). In the race each task performs ONE poll on its own OS thread; a baton scheduler decides at every hook point (before connection_error.get / get_or_init / waker.register / waker.wake) who runs next. All interleavings are enumerated for one racing handle (quick) and two (thorough); three are sampled. E = the error whose store step ran first: the driver returned E or was woken and then returns E (parked with the error set = violation); exactly one close with E's code for h3-detected errors, none for transport errors; five further driver polls return E; no handle ever reports a different connection error, in the race or in later calls.",
          "trusted: AtomicWaker and OnceLock are atomic at the hook granularity; weak-memory reorderings are not modelled (DESIGN.md section 4); later calls follow the documented pattern (a failed receive call is only repeated)",
          "DESIGN.md section 3 C05, 2.7"),
+ "C17": ("quinn-loop",
+         "property-based testing over generated frame sequences, flow-control windows and injected faults against REAL Quinn endpoints on UDP loopback + enumeration of the id-state and error tables; oracle = byte equality at a raw Quinn peer, id constancy, error-class table",
+         "h3_quinn over real quinn 0.11 connections (fresh connection per case, endpoints reused per worker, current-thread tokio runtime): 1..6 WriteBufs (DATA/HEADERS/GOAWAY/grease/stream-type-prefixed, payloads 0..256 KiB) and raw poll_send under stream/connection receive windows and send windows from 1 byte to 16 MiB; a raw Quinn peer reads to the end and must see exactly the handed-over bytes once, complete, in order; a second send_data before poll_ready completed must be refused and contribute nothing. send_id/recv_id (and the split halves) in 8 states x opened/accepted side: always the QUIC stream id, never a panic. Error table: peer close => ApplicationClose{code} on accept/read/write, idle timeout => Timeout, reset => StreamTerminated{code} on read, stop => StreamTerminated{code} on write, for several codes incl. 2^62-1.",
+         "trusted: quinn, tokio and the kernel own the schedule (sampled, not controlled); 20 s wall-clock watchdog per case maps to exit 2, never to a violation",
+         "DESIGN.md section 3 C17"),
 }
 
 NOT_YET = "check not built yet in this session (see DESIGN.md section 5 for the construction order); no claim is made"
@@ -148,6 +153,7 @@ def main():
         },
         "engines": [
             {"name": "codec", "path": "harness/src/props (E1)", "serves_properties": ["C02", "C11", "C12", "C15", "C16", "C18"], "kind_free_text": "pure codec functions called directly; proptest over choice tapes, exhaustive loops, libFuzzer targets with the oracle inside"},
+            {"name": "quinn-loop", "path": "harness/src/props/c17.rs (E4)", "serves_properties": ["C17"], "kind_free_text": "h3_quinn over real quinn endpoints on UDP loopback inside a current-thread tokio runtime"},
             {"name": "interleave", "path": "harness/src/interleave (E3)", "serves_properties": ["C05"], "kind_free_text": "baton scheduler over OS threads parked at cfg-guarded hook points inside h3: the harness owns the order of the shared-state operations of the connection error path"},
             {"name": "qpack-stateful", "path": "harness/src/props/c20.rs + harness/src/reference/qpack_dyn.rs (E5)", "serves_properties": ["C20"], "kind_free_text": "h3's stateful QPACK Encoder/Decoder (hook re-export) driven by generated workloads and delivery schedules next to a reference decoder"},
             {"name": "simnet", "path": "harness/src/simnet (E2)", "serves_properties": ["C01", "C03", "C04", "C06", "C07", "C08", "C09", "C10", "C12", "C13", "C14", "C19"], "kind_free_text": "real h3 client/server over a deterministic in-memory QUIC transport with a tape-driven scheduler and executor"},
